@@ -65,6 +65,7 @@ var commands = map[string]command{
 	"robust-worker":       robustWorker,
 	"robust-trace":        robustTrace,
 	"registry-trace":      registryTrace,
+	"register-race":       registerRace,
 	"concurrent-run":      concurrentRun,
 }
 
